@@ -628,8 +628,10 @@ class PdeFamily(Obligation):
       L2  decay exponent of the v-integrand == that of the u-integrand
       L3  with the v-atoms replaced by the u-atoms (substitution of equals, justified by L1, L2 and function
           congruence), every addend of a residual is  weight*sin*exp * (addend with weight, sin, exp -> 1)
-      L4  the residuals of those amplitudes vanish  (its own obligation: an encoder that never sees the
-          transcendental atoms and their axioms decides it in a second or two instead of half a minute)
+      L4a eta * amplitude of upart1(eta) == eta' * amplitude of vpart1(eta')  (the relation between the two
+          square-root denominators; without this hint z3 needs 20-60 s for L4, with it 0.02 s)
+      L4  the residuals of those amplitudes vanish, given L4a  (L4a, L4: their own obligation, whose encoder
+          never sees the transcendental atoms)
       glue  for arbitrary reals: A_i == F*M_i (i = 0,1,2) and M_0+M_1+M_2 == 0 imply A_0+A_1+A_2 == 0;
           instantiated with A_i = addends, F = weight*sin*exp, M_i = amplitudes this is the residual of the
           real weighted integrands (z3 cannot do this step on the instantiated terms in reasonable time: it
@@ -681,6 +683,10 @@ class PdeFamily(Obligation):
             for i, row in enumerate(adds):
                 for j, a in enumerate(row):
                     out['A%d%d' % (i, j)] = SymReal(T.substitute(T.substitute(term_of(a), at['unify']), at['strip']))
+            # amplitudes of the two bare integrands (weight and Jacobian removed) for the hint L4a
+            e1, e1p = circle(mk)
+            out['eta_amp_u'] = e1 * SymReal(T.substitute(term_of(U), at['strip']))
+            out['etap_amp_v'] = e1p * SymReal(T.substitute(T.substitute(term_of(W), at['unify']), at['strip'])) / jacobian(mk, e1, e1p)
             return out
         # numeric twin: the addends of the real residual (own finite differences of the real integrands)
         ht, hx = 1e-3 * max(abs(tau), 1e-3), 2e-3 * max(1.0, abs(x))
@@ -704,9 +710,19 @@ class PdeFamily(Obligation):
         tag = self.tag
         if self.part == 'amplitudes':
             cx.true(tag + 'each integrand is amplitude * one exp * one sin', cx['ok'] == 1)
-            if cx['ok'] == 1:
-                for i, label in enumerate(PDE_LABELS):
-                    cx.zero(tag + label + ' L4 [amplitudes]', [cx['A%d%d' % (i, j)] for j in range(3)])
+            if cx['ok'] != 1:
+                return
+            l4a = tag + 'L4a eta*amplitude of upart1(eta) = eta\'*amplitude of vpart1(eta\') on the circle'
+            rows = [[cx['A%d%d' % (i, j)] for j in range(3)] for i in range(2)]
+            if cx.symbolic:
+                hint = SymBool(T.eq(term_of(cx['eta_amp_u']), term_of(cx['etap_amp_v'])))
+                cx.true(l4a, hint)
+            else:
+                hint = True
+                for row in rows:
+                    cx.zero(l4a, row)
+            for label, row in zip(PDE_LABELS, rows):
+                cx.zero(tag + label + ' L4 [amplitudes]', row, when=hint)
             return
         eps = cx.p('eps')
         U, W = (lambda c: c['U']), (lambda c: c['W'])
